@@ -152,6 +152,10 @@ def configs(tier):
                 c.append({"gene": "toy", "genome": genome, "cn": st, "mode": "noise"})
             c.append({"gene": "GA", "genome": genome, "cn": ["1", "1", "5", "6"],
                       "mode": "noise"})
+    # which alleles are candidates at all: the two-step read filter of the major stage on
+    # structures where the copy number differs along the gene (shared with C15)
+    for g, st in (("toy", ["1", "4"]), ("toy", ["1", "6"]), ("GA", ["1", "5"])):
+        c.append({"kind": "major", "gene": g, "genome": "hg19", "cn": st})
     # the clauses "first reported is optimal / all reported lie within the gap / complete"
     # rest on the solution enumerator: its contract on an uninterpreted model family
     # (shared with C05)
@@ -229,6 +233,9 @@ def run_config(cfg):
     if cfg.get("kind") == "enum":
         import c05
         return c05.run_enum(cfg)
+    if cfg.get("kind") == "major":
+        import c15
+        return c15.run_major(cfg)
     if cfg["mode"] == "readout":
         return run_readout(cfg)
     if cfg["mode"] == "readout2":
@@ -740,6 +747,9 @@ def replay(o):
     if o.get("kind") == "enum":
         import c05
         return c05.replay_enum(o)
+    if o.get("kind") == "counts":
+        import c15
+        return c15.replay_counts(o)
     import aldy.major as major
 
     gene = gengene.load(o["gene"], o["genome"])
